@@ -108,6 +108,11 @@ mutual
     | .mk isDef _ b :: cs => (if isDef then Stmt.sizes b else 0) + Case.defaultsSize cs
 end
 
+/-- does any non-default case of the switch have an expression to test? -/
+def Case.hasTest : List Case → Bool
+  | [] => false
+  | .mk isDef es _ :: cs => (!isDef && !es.isEmpty) || Case.hasTest cs
+
 /-! ### depth of the tree, as the recursion of `compile` sees it -/
 mutual
   def Expr.depth : Expr → Nat
@@ -290,6 +295,11 @@ mutual
         pure (cc ++ [⟨.jumpIfFalse, fBase⟩] ++ ct ++ [⟨.jump, fBase + f.size⟩] ++ cf
                 ++ [⟨.placeholder, 0⟩], st)
     | .switchE v cs => do
+        -- a switch without case-expressions never tests its value: the value is compiled all the
+        -- same (errors are reported, constants and functions it defines stay) and the code dropped
+        let st ← (if Case.hasTest cs then pure st else do
+                    let (_, st) ← compileExpr v base st
+                    pure st)
         let endPos := base + Case.armsSize v.size cs + Case.defaultsSize cs
         let (ca, st) ← compileArms (fun b s => compileExpr v b s) v.size cs base endPos st
         let (cd, st) ← compileDefaults cs (base + Case.armsSize v.size cs) st
